@@ -399,6 +399,52 @@ Proof.
   - cbn [items]. rewrite Ei, cnt_app. lia.
 Qed.
 
+Lemma dequeue_worker_cases : forall q w,
+  dequeue_worker q w = (None, q) \/
+  (exists l n, items q = l ++ [n] /\ (mccoy n = false \/ w = O) /\
+               dequeue_worker q w = (Some n, mkQ l (qlen q - 1) (qstl q - b2z (stl n)))) \/
+  (exists l m n, items q = l ++ [m; n] /\ mccoy n = true /\ w <> O /\
+                 dequeue_worker q w = (Some m, mkQ (l ++ [n]) (qlen q - 1) (qstl q - b2z (stl m)))).
+Proof.
+  intros q w. unfold dequeue_worker. destruct (rev (items q)) as [|n r] eqn:E; [left; reflexivity|].
+  apply (f_equal (@rev node)) in E. rewrite rev_involutive in E. cbn [rev] in E.
+  destruct (mccoy n && negb (Nat.eqb w O)) eqn:Em.
+  - apply andb_prop in Em. destruct Em as [Hm Hw]. destruct r as [|m r'].
+    + left. reflexivity.
+    + right. right. exists (rev r'), m, n. cbn [rev] in E. rewrite <- app_assoc in E. cbn [app] in E.
+      repeat split; auto. intros ->. cbn in Hw. discriminate.
+  - right. left. exists (rev r), n. split; [exact E|]. split; [|reflexivity].
+    apply andb_false_iff in Em. destruct Em as [Hm|Hw]; [left; exact Hm|right].
+    destruct w; [reflexivity | cbn in Hw; discriminate].
+Qed.
+
+Lemma dequeue_worker_0 : forall q, dequeue_worker q O = dequeue_owner q.
+Proof.
+  intros q. unfold dequeue_worker, dequeue_owner. destruct (rev (items q)) as [|n r]; [reflexivity|].
+  cbn [Nat.eqb negb]. rewrite andb_false_r. reflexivity.
+Qed.
+
+Lemma dequeue_worker_cnt : forall q w o q', dequeue_worker q w = (o, q') ->
+  forall t, (cnt t (items q') + cnt t (match o with Some n => [n] | None => [] end) = cnt t (items q))%nat.
+Proof.
+  intros q w o q' H t.
+  destruct (dequeue_worker_cases q w) as [E|[[l [n [Ei [_ E]]]]|[l [m [n [Ei [_ [_ E]]]]]]]]; rewrite E in H; inversion H; subst.
+  - cbn [cnt]. lia.
+  - cbn [items]. rewrite Ei, cnt_app. lia.
+  - cbn [items]. rewrite Ei, !cnt_app. cbn [cnt]. lia.
+Qed.
+
+Lemma exact_dequeue_worker : forall q w o q', exact q -> dequeue_worker q w = (o, q') -> exact q'.
+Proof.
+  intros q w o q' [Hl Hs] H.
+  destruct (dequeue_worker_cases q w) as [E|[[l [n [Ei [_ E]]]]|[l [m [n [Ei [_ [_ E]]]]]]]]; rewrite E in H; inversion H; subst.
+  - split; assumption.
+  - unfold exact; cbn [items qlen qstl]. rewrite Ei, app_length in Hl. rewrite Ei, count_stl_app in Hs. cbn [length count_stl] in *.
+    unfold b2z. destruct (stl n); lia.
+  - unfold exact; cbn [items qlen qstl]. rewrite Ei, app_length in Hl. rewrite Ei, count_stl_app in Hs.
+    rewrite app_length, count_stl_app. cbn [length count_stl] in *. unfold b2z. destruct (stl m), (stl n); lia.
+Qed.
+
 Lemma dequeue_steal_cnt : forall c lk v s v', exact v -> dequeue_steal c lk v = (s, v') ->
   forall t, (cnt t (items v') + cnt t s = cnt t (items v))%nat.
 Proof.
@@ -535,31 +581,41 @@ Proof.
         assert (Hs2 : (s < nsheps st2)%nat) by (rewrite N; exact Hs1).
         destruct (IH st2 s w a r0 st0 Hs2 (E Hex1) H1) as [[N2 [E2 K2]] X2].
         repeat split; [|congruence|exact X2]. intros t. specialize (K t). specialize (K2 t). lia. }
-    destruct (items (getq st s)) as [|x xs] eqn:Eit.
-    + (* own queue empty *)
-      destruct (negb (getst st s =? 0)); [inversion H; subst; split; [apply conserv_refl|exact Hex]|].
-      destruct (a && (1 <? nsheps st)%nat); [|inversion H; subst; split; [apply conserv_refl|exact Hex]].
-      destruct (disable st); [inversion H; subst; split; [apply conserv_refl|exact Hex]|].
-      pose proof (qsteal_conserv st s [] Hs Hex) as Q.
-      destruct (qsteal st s []) as [n st2|st2|st2].
+    (* first the own queue: (node1, st1) *)
+    set (pr := match items (getq st s) with
+               | [] => (None, st)
+               | _ :: _ => let '(o, q') := dequeue_worker (getq st s) w in (o, setq st s q')
+               end) in H.
+    assert (Hpr : (s < nsheps (snd pr))%nat /\ sys_exact (snd pr) /\ nsheps (snd pr) = nsheps st /\
+                  forall t, (cntq t (queues (snd pr)) + cnt t (match fst pr with Some n => [n] | None => [] end) = cntq t (queues st))%nat).
+    { unfold pr. destruct (items (getq st s)) as [|x xs].
+      - cbn [fst snd cnt]. repeat split; auto.
+      - destruct (dequeue_worker (getq st s) w) as [o q'] eqn:Ed. cbn [fst snd].
+        pose proof (dequeue_worker_cnt _ _ _ _ Ed) as Hc.
+        pose proof (exact_dequeue_worker _ _ _ _ (exact_getq st s Hex) Ed) as Hq'.
+        rewrite nsheps_setq. repeat split; auto; [apply sys_exact_setq; assumption|].
+        intros t. specialize (Hc t). pose proof (cntq_setq t st s q' Hs). lia. }
+    destruct pr as [node1 st1]. cbn [fst snd] in Hpr. destruct Hpr as [Hs1 [Hex1 [N1 K1]]].
+    destruct node1 as [n|].
+    + destruct (Hfin st1 n r st' Hs1 Hex1 H) as [K2 [N2 X2]].
+      split; [|exact X2]. split; [congruence|]. split; [auto|].
+      intros t. specialize (K2 t). specialize (K1 t). cbn [cnt] in *. lia.
+    + assert (Hstay : conserv st st1 [] /\ sys_exact st1).
+      { split; [|exact Hex1]. split; [exact N1|]. split; [auto|]. intros t. specialize (K1 t). cbn [cnt] in *. lia. }
+      destruct (negb (getst st1 s =? 0)); [inversion H; subst; exact Hstay|].
+      destruct (a && (1 <? nsheps st1)%nat); [|inversion H; subst; exact Hstay].
+      destruct (disable st1); [inversion H; subst; exact Hstay|].
+      pose proof (qsteal_conserv st1 s [] Hs1 Hex1) as Q.
+      destruct (qsteal st1 s []) as [n st2|st2|st2].
       * destruct Q as [N [E K]].
-        assert (Hs2 : (s < nsheps st2)%nat) by (rewrite N; exact Hs).
-        destruct (Hfin st2 n r st' Hs2 (E Hex) H) as [K2 [N2 X2]].
-        split; [|exact X2]. repeat split; [congruence | auto |].
-        intros t. specialize (K t). specialize (K2 t). cbn [cnt] in *. lia.
-      * inversion H; subst. split; [exact Q | destruct Q as [_ [E _]]; auto].
-      * inversion H; subst. split; [exact Q | destruct Q as [_ [E _]]; auto].
-    + destruct (dequeue_owner (getq st s)) as [o q'] eqn:Ed.
-      pose proof (dequeue_owner_cnt _ _ _ Ed) as Hc.
-      pose proof (exact_dequeue_owner _ _ _ (exact_getq st s Hex) Ed) as Hq'.
-      destruct o as [n|].
-      * assert (Hs1 : (s < nsheps (setq st s q'))%nat) by (rewrite nsheps_setq; exact Hs).
-        assert (Hex1 : sys_exact (setq st s q')) by (apply sys_exact_setq; assumption).
-        destruct (Hfin (setq st s q') n r st' Hs1 Hex1 H) as [K2 [N2 X2]].
-        split; [|exact X2]. repeat split; [rewrite N2; apply nsheps_setq | auto |].
-        intros t. specialize (K2 t). specialize (Hc t). pose proof (cntq_setq t st s q' Hs). cbn [cnt] in *. lia.
-      * (* impossible: the list is not empty *)
-        destruct (dequeue_owner_spec (getq st s)) as [[E0 _]|[l [n [_ E1]]]]; [congruence|]. rewrite E1 in Ed. discriminate.
+        assert (Hs2 : (s < nsheps st2)%nat) by (rewrite N; exact Hs1).
+        destruct (Hfin st2 n r st' Hs2 (E Hex1) H) as [K2 [N2 X2]].
+        split; [|exact X2]. split; [congruence|]. split; [auto|].
+        intros t. specialize (K t). specialize (K2 t). specialize (K1 t). cbn [cnt] in *. lia.
+      * inversion H; subst. destruct Q as [N [E K]]. split; [|auto]. split; [congruence|]. split; [auto|].
+        intros t. specialize (K t). specialize (K1 t). cbn [got_nodes cnt] in *. lia.
+      * inversion H; subst. destruct Q as [N [E K]]. split; [|auto]. split; [congruence|]. split; [auto|].
+        intros t. specialize (K t). specialize (K1 t). cbn [got_nodes cnt] in *. lia.
 Qed.
 
 (* nodes that enter / leave the system by one operation *)
@@ -608,7 +664,7 @@ Proof.
     assert (C : conserv st st2 (got_nodes g) /\ sys_exact st2).
     { unfold get_thread in G. destruct w.
       - eapply get_loop_conserv; eassumption.
-      - destruct (negb match items (getq st s) with [] => true | _ :: _ => false end && all_mccoy (getq st s)).
+      - destruct ((1 <? length (items (getq st s)))%nat && all_mccoy (getq st s)).
         + inversion G; subst. split; [apply conserv_refl | exact Hex].
         + eapply get_loop_conserv; eassumption. }
     destruct C as [[N [_ K]] X].
